@@ -39,6 +39,11 @@ def _drive(solver, op, out):
     if kind == "find_all":
         out.solutions = [nx.vec(s) for s in solver.find_all()]
         out.exhausted = True
+    elif kind == "again":
+        # a second exhaustive search on the same solver object
+        solver.find_all()
+        out.solutions = [nx.vec(s) for s in solver.find_all()]
+        out.exhausted = True
     elif kind == "solve_all":
         acc = []
         solver.solve_all(lambda s: acc.append(nx.vec(s)))
